@@ -240,6 +240,33 @@ func c15Run(c c15Case, dir string) (err error) {
 			entries[e] = c15Entry{}
 		}
 	}
+	// final sweep: every entry that is committed according to the model is still exactly there (size,
+	// record count, bytes), whatever was created, committed or discarded next to it in the meantime
+	if !faulty {
+		for e := range entries {
+			en := entries[e]
+			if en.state != 1 {
+				continue
+			}
+			task, part := c15Name(e)
+			info, err := store.Stat(ctx, task, part)
+			if err != nil {
+				return fmt.Errorf("final sweep: Stat of committed entry %d failed: %v", e, err)
+			}
+			if info.Size != int64(len(en.data)) || info.Records != en.count {
+				return fmt.Errorf("final sweep: entry %d: Stat reports size %d records %d, committed were %d bytes and %d records", e, info.Size, info.Records, len(en.data), en.count)
+			}
+			rc, err := store.Open(ctx, task, part, 0)
+			if err != nil {
+				return fmt.Errorf("final sweep: Open of committed entry %d failed: %v", e, err)
+			}
+			got, rerr := ioutil.ReadAll(rc)
+			rc.Close()
+			if rerr != nil || !bytes.Equal(got, en.data) {
+				return fmt.Errorf("final sweep: entry %d reads %d bytes %q (error %v), committed were %d bytes %q", e, len(got), c15Short(got), rerr, len(en.data), c15Short(en.data))
+			}
+		}
+	}
 	return nil
 }
 
@@ -255,7 +282,7 @@ func c15GenOps(t *rapid.T) []c15Op {
 	n := rapid.IntRange(1, 20).Draw(t, "nops")
 	ops := make([]c15Op, n)
 	for i := range ops {
-		ops[i] = c15Op{K: rapid.SampledFrom(kinds).Draw(t, "k"), E: rapid.IntRange(0, c15Entries-1).Draw(t, "e"), H: rapid.IntRange(0, 3).Draw(t, "h"), N: rapid.IntRange(0, 40).Draw(t, "n")}
+		ops[i] = c15Op{K: rapid.SampledFrom(kinds).Draw(t, "k"), E: rapid.IntRange(0, c15Entries-1).Draw(t, "e"), H: rapid.IntRange(0, 3).Draw(t, "h"), N: rapid.IntRange(1, 40).Draw(t, "n")}
 		if ops[i].K == "write" {
 			ops[i].Data = rapid.SliceOfN(rapid.ByteRange('a', 'z'), 0, 30).Draw(t, "data")
 		}
@@ -267,7 +294,7 @@ const c15Stores = "TestVerifC15Stores"
 
 func TestVerifC15Stores(t *testing.T) {
 	rec := vt.New("C15", "stores",
-		"rapid: sequences of 1..20 operations (create, write, commit, discard-writer, open at an offset, stat, discard) over 4 entries on memoryStore and on fileStore through the fault-injecting vfault:// file implementation, compared with a map model (nothing visible before a successful commit; exact bytes from any offset, size and record count afterwards); for fileStore each sequence is first run fault-free to learn its trace of underlying file operations and then re-run once for EVERY (kind, k) with the k-th operation of that kind failing (also with short writes/reads): failed operations must report errors, a failed commit leaves the entry absent or complete, Commit must not return nil after a failed write; evaluations = executed sequences incl. fault variants; non-trivial = a fault fired or an entry was committed and read back; distinct by (sequence, fault)")
+		"rapid: sequences of 1..20 operations (create, write, commit, discard-writer, open at an offset, stat, discard) over 4 entries on memoryStore and on fileStore through the fault-injecting vfault:// file implementation, compared with a map model (nothing visible before a successful commit; exact bytes from any offset, size and record count afterwards, re-checked for every committed entry in a final sweep); for fileStore each sequence is first run fault-free to learn its trace of underlying file operations and then re-run once for EVERY (kind, k) with the k-th operation of that kind failing (also with short writes/reads): failed operations must report errors, a failed commit leaves the entry absent or complete, Commit must not return nil after a failed write; evaluations = executed sequences incl. fault variants; non-trivial = a fault fired or an entry was committed and read back; distinct by (sequence, fault)")
 	dir := os.Getenv("VERIF_SCRATCH")
 	if dir == "" {
 		dir = os.TempDir()
